@@ -1,4 +1,190 @@
-import QipVerif.Model.SimKet
-/-! # C01 — gate-level evolution equals the ordered product of the gates' matrices (theorems follow) -/
+import QipVerif.Lemmas.SimKetDm
+/-!
+# C01 — gate-level evolution equals the ordered product of the gates' matrices
+
+Property theorems only.  `SimKet.*` (Model/SimKet.lean) is the executable model of
+`CircuitSimulator` / `QubitCircuit.propagators` / `compute_unitary` / `gate_sequence_product`;
+it is generic in the scalars, the driver runs it over ℤ[ζ₁₆][1/2] and the theorems below are
+about the same definitions instantiated with ℂ (`SimKet.opsC`).  The specification object is
+`denP` (Lemmas/Den.lean): the ordered product of each gate's matrix embedded (`Tg.embed`, C08) on
+the qubits it names; `toPGate N` reads a step of the model as such a placed gate
+(GLOBALPHASE: the scalar on the empty placement).
+
+The model describes the code repaired by fixes/C01-1.patch (sorted merged indices),
+fixes/C01-2.patch (scalar conjugate for GLOBALPHASE in density-matrix mode) and
+fixes/C01-3.patch (`state` getter no longer overwrites the internal tensor).
+-/
 namespace QipVerif.C01
+open QipVerif.SimKet QipVerif.Embed Matrix
+
+/-! ## The index lists of `_evolve_state_einsum` -/
+
+/-- **`einsum_lists_spec`.** For every number of sites `n` (qubits, plus one for an operator-valued
+state) and every injective in-range list `qs` of acted-on qubits: the gate's output axes get the
+fresh labels `n … n+k-1`, its input axes the labels `qs`, the state the labels `0 … n-1`, and
+`new_index_list` is `index_list` with position `qs[j]` replaced by `n + j`; the fresh labels occur
+neither in the state's nor in the targets' list, the output labels are pairwise distinct and the
+contracted labels `qs` do not occur among them. -/
+theorem einsum_lists_spec (n : Nat) (qs : List Nat) (hn : qs.Nodup) (hr : ∀ q ∈ qs, q < n) :
+    (einLists n qs).anc = List.range' n qs.length ∧ (einLists n qs).tgt = qs ∧
+    (einLists n qs).idx = List.range n ∧ (einLists n qs).new.length = n ∧
+    (∀ j (hj : j < qs.length), (einLists n qs).new[qs[j]]? = some (n + j)) ∧
+    (∀ p, p < n → p ∉ qs → (einLists n qs).new[p]? = some p) ∧
+    (∀ a ∈ (einLists n qs).anc, a ∉ (einLists n qs).idx ∧ a ∉ (einLists n qs).tgt) ∧
+    (einLists n qs).new.Nodup ∧ (∀ q ∈ qs, q ∉ (einLists n qs).new) :=
+  einLists_spec n qs hn hr
+-- non-vacuity: a 5-site tensor (4 qubits + the ancillary axis), gate on qubits [3, 0]
+example : [3, 0].Nodup ∧ (∀ q ∈ [3, 0], q < 5) ∧
+    einLists 5 [3, 0] = ⟨[5, 6], [3, 0], [0, 1, 2, 3, 4], [6, 1, 2, 5, 4]⟩ := by decide
+
+/-- **What the einsum call computes, over arbitrary scalars** (no ring laws are used): for every
+tensor shape, every injective list `qs` of axes of size 2 and every gate matrix, the step succeeds,
+keeps the shape and its entry at the position `x` is the contraction
+`Σ_b gate[(x at qs), b] · state[x with the entries at qs replaced by b]`. -/
+theorem stepKet_contraction {α : Type} (o : Ops α) (qs : List Nat) (U : List (List α)) (st : Tensor α)
+    (hn : qs.Nodup) (hr : ∀ q ∈ qs, st.shape[q]? = some 2) :
+    stepKet o (.gate qs qs.length U) st = .ok (Tensor.ofFn st.shape (contractL o qs.length qs U st)) :=
+  stepKet_gate o qs U st hn hr
+-- non-vacuity (exact scalars): CNOT with control 2, target 0 on |001⟩ gives |101⟩
+example : (stepKet CycD.ops (.gate [2, 0] 2
+      [[CycD.one, CycD.zero, CycD.zero, CycD.zero], [CycD.zero, CycD.one, CycD.zero, CycD.zero],
+       [CycD.zero, CycD.zero, CycD.zero, CycD.one], [CycD.zero, CycD.zero, CycD.one, CycD.zero]])
+      (ketTensor 3 [CycD.zero, CycD.one, CycD.zero, CycD.zero, CycD.zero, CycD.zero, CycD.zero, CycD.zero])).toOption.map
+        (·.data) = some [CycD.zero, CycD.zero, CycD.zero, CycD.zero, CycD.zero, CycD.one, CycD.zero, CycD.zero] := by
+  decide +kernel
+
+/-! ## One step is the embedded operator -/
+
+/-- **`stepKet_eq_embed_mulVec`.** Applying a `k`-qubit matrix at the placement `t` to `ψ` by the
+contraction the index lists prescribe, `ψ'(x) = Σ_b U (x ∘ t) b · ψ (x with the t-digits replaced by b)`,
+is multiplication by the embedded operator — for all `N`, `k`, injective `t`, `U`, `ψ`. -/
+theorem stepKet_eq_embed_mulVec {k N : ℕ} (t : Tg k N) (U : Matrix (St k) (St k) ℂ) (ψ : St N → ℂ) (x : St N) :
+    (∑ b : St k, U (x ∘ t.f) b * ψ (t.update x b)) = (t.embed U).mulVec ψ x :=
+  (t.mulVec_embed U ψ x).symm
+
+/-- `update` is "replace the digits at the placed qubits, keep the others" -/
+theorem update_spec {k N : ℕ} (t : Tg k N) (x : St N) (b : St k) :
+    (∀ j, t.update x b (t.f j) = b j) ∧ (∀ i, i ∉ Set.range t.f → t.update x b i = x i) :=
+  ⟨t.update_apply_f x b, t.update_rest x b⟩
+
+/-- the same for an operator-valued state (one extra axis `c`, carried along): `t.embed U * M` -/
+theorem stepOper_eq_embed_mul {k N : ℕ} {ι : Type*} (t : Tg k N) (U : Matrix (St k) (St k) ℂ)
+    (M : Matrix (St N) ι ℂ) (x : St N) (c : ι) :
+    (∑ b : St k, U (x ∘ t.f) b * M (t.update x b) c) = (t.embed U * M) x c :=
+  (t.mul_embed_apply U M x c).symm
+
+/-- **The model's step** (list tensors, ℂ): for every register size `N`, every trailing shape `ex`
+(`[]` for a ket, `[2^N]` for an operator), every injective in-range `qs`, every gate matrix and every
+state tensor, each slice of the new tensor is the embedded gate matrix applied to the old slice. -/
+theorem stepKet_model_eq_embed_mulVec {N : ℕ} (qs : List ℕ) (hn : qs.Nodup) (hr : ∀ q ∈ qs, q < N)
+    (U : List (List ℂ)) (st : Tensor ℂ) (ex r : List ℕ)
+    (hsh : st.shape = List.replicate N 2 ++ ex) (hv : ValidIx ex r) :
+    ∃ T', stepKet opsC (.gate qs qs.length U) st = .ok T' ∧ T'.shape = st.shape ∧
+      slice N T' r = ((tgOfList N qs hn hr).embed (gateMat qs.length U)).mulVec (slice N st r) :=
+  slice_stepKet_gate qs hn hr U st ex r hsh hv
+example : [2, 0].Nodup ∧ (∀ q ∈ [2, 0], q < 3) ∧ ValidIx [8] [5] := by
+  refine ⟨by decide, by decide, rfl, ?_⟩
+  intro i h1 h2
+  have : i = 0 := by simpa using h1
+  subst this; simp
+
+/-! ## Whole runs -/
+
+/-- **`ket_run_eq_den`.** For every register size, every measurement-free circuit of well-placed
+steps (any matrices: library or user gates; GLOBALPHASE as a scalar) and every input ket, the
+state-vector run of the model succeeds and returns `(ordered product).mulVec ψ`. -/
+theorem ket_run_eq_den (N : ℕ) (ops : List (Op ℂ)) (hw : ∀ op ∈ ops, WFOp N op) (amps : List ℂ) :
+    ∃ T', runKet opsC ops (ketTensor N amps) = .ok T' ∧ T'.shape = List.replicate N 2 ∧
+      ketOf N T' = (denP (ops.map (toPGate N))).mulVec (ketOf N (ketTensor N amps)) :=
+  ket_run N ops hw amps
+
+/-- the same for an operator-valued input (state-vector mode applied to an operator): `D * M` -/
+theorem oper_run_eq_den (N : ℕ) (ops : List (Op ℂ)) (hw : ∀ op ∈ ops, WFOp N op) (rows : List (List ℂ)) :
+    ∃ T', runKet opsC ops (operTensor N rows) = .ok T' ∧ T'.shape = List.replicate N 2 ++ [2 ^ N] ∧
+      operOf N T' = denP (ops.map (toPGate N)) * operOf N (operTensor N rows) :=
+  oper_run N ops hw rows
+
+/-- **`unitary_eq_den`.** `compute_unitary` (run on the identity operator) is the ordered product. -/
+theorem unitary_eq_den (N : ℕ) (ops : List (Op ℂ)) (hw : ∀ op ∈ ops, WFOp N op) :
+    ∃ T', computeUnitary opsC N ops = .ok T' ∧ T'.shape = List.replicate N 2 ++ [2 ^ N] ∧
+      operOf N T' = denP (ops.map (toPGate N)) :=
+  unitary_run N ops hw
+
+/-- **`dm_run_eq_den`.** Density-matrix mode: `ρ ↦ D ρ D†` with `D` the ordered product
+(GLOBALPHASE contributes `c ρ c̄`; this is the repaired code, fixes/C01-2.patch). -/
+theorem dm_run_eq_den (N : ℕ) (ops : List (Op ℂ)) (hw : ∀ op ∈ ops, WFOp N op) (ρ : FMat ℂ) (hρ : ρ.n = 2 ^ N) :
+    ∃ ρ', runDm opsC N ops ρ = .ok ρ' ∧ ρ'.n = 2 ^ N ∧
+      matOf N ρ' = denP (ops.map (toPGate N)) * matOf N ρ * (denP (ops.map (toPGate N)))ᴴ :=
+  runDm_spec N ops hw ρ hρ
+
+/-- density-matrix mode started from a ket: `ket2dm` is `|ψ⟩⟨ψ|` -/
+theorem ket2dm_spec (N : ℕ) (amps : List ℂ) :
+    matOf N (ket2dm opsC (2 ^ N) amps) = fun x y => amps.getD (enc x) 0 * star (amps.getD (enc y) 0) :=
+  matOf_ket2dm N amps
+
+/-- `propagators(expand=True)` are the embedded gate matrices, in circuit order -/
+theorem propagators_expand_eq (N : ℕ) (ops : List (Op ℂ)) (hw : ∀ op ∈ ops, WFOp N op) :
+    ∃ l, propagators opsC N true ops = .ok l ∧ (∀ A ∈ l, A.n = 2 ^ N) ∧
+      l.map (matOf N) = ops.map (fun op => (toPGate N op).den) :=
+  propagators_expand N ops hw
+
+/-- **`propagators_product_eq_den`.** The expanded propagators multiplied left to right
+(`gate_sequence_product(U_list)`) give the ordered product, for every non-empty circuit
+(for the empty one the code returns the integer 1, the model `none`). -/
+theorem propagators_product_eq_den (N : ℕ) (ops : List (Op ℂ)) (hw : ∀ op ∈ ops, WFOp N op) (hne : ops ≠ []) :
+    ∃ l P, propagators opsC N true ops = .ok l ∧ seqProduct opsC true none l = some P ∧
+      matOf N P = denP (ops.map (toPGate N)) :=
+  propagators_product N ops hw hne
+-- non-vacuity of the run theorems: a well-placed 3-qubit circuit with a phase, a 2-qubit and a 1-qubit gate
+example : ∀ op ∈ [Op.phase (Complex.I), .gate [2, 0] 2 [[1, 0, 0, 0], [0, 1, 0, 0], [0, 0, 0, 1], [0, 0, 1, 0]],
+    .gate [1] 1 [[0, 1], [1, 0]]], WFOp 3 op := by
+  intro op hop
+  simp only [List.mem_cons, List.not_mem_nil, or_false] at hop
+  rcases hop with rfl | rfl | rfl <;> simp [WFOp]
+
+/-- the specification object is the circuit denotation `denG` of Lemmas/Sem.lean whenever the steps
+are library gates of the circuit IR: if `semG` reads the gates `gs` as the placed gates of the steps,
+the ordered product of the model's steps is `denG N ρ gs`. -/
+theorem den_eq_denG (N : ℕ) (ρ : ℕ → ℝ) (gs : List Gate) (ops : List (Op ℂ))
+    (h : gs.mapM (semG N ρ) = some (ops.map (toPGate N))) :
+    denG N ρ gs = some (denP (ops.map (toPGate N))) := by
+  simp [denG, h]
+
+/-! ## `_get_gate_unitary` -/
+
+/-- **User-gate lookup**: a name absent from `user_gates` is resolved by the library; a present name
+with controls is refused; otherwise a stored operator is used as is, a function of no argument is
+called without, a function of one argument with `arg_value`, any other function or object is refused. -/
+theorem getGateUnitary_spec (ug : List (String × UserKind)) (name : String) (cn : Bool) :
+    getGateUnitary ug name cn =
+      match List.lookup name ug with
+      | none => .ok .library
+      | some kind =>
+        if cn = false then .error .userControls else
+        match kind with
+        | .oper => .ok (.userOper name)
+        | .fn 0 => .ok (.userCall0 name)
+        | .fn 1 => .ok (.userCall1 name)
+        | .fn _ => .error .userParams
+        | .other => .error .userNeither := by
+  unfold getGateUnitary
+  cases List.lookup name ug with
+  | none => rfl
+  | some kind =>
+    cases cn with
+    | false => rfl
+    | true =>
+      cases kind with
+      | oper => rfl
+      | other => rfl
+      | fn n =>
+        match n with
+        | 0 => rfl
+        | 1 => rfl
+        | _ + 2 => rfl
+example : getGateUnitary [("CTRLRX", .fn 1), ("T2", .oper)] "CTRLRX" true = .ok (.userCall1 "CTRLRX") ∧
+    getGateUnitary [("CTRLRX", .fn 1), ("T2", .oper)] "T2" false = .error .userControls ∧
+    getGateUnitary [("CTRLRX", .fn 2)] "CTRLRX" true = .error .userParams ∧
+    getGateUnitary [("CTRLRX", .fn 1)] "CNOT" false = .ok .library := by decide
+
 end QipVerif.C01
